@@ -143,6 +143,21 @@ def explore(chk):
         chk.case(key=("verbatim", raw), nontrivial=True); chk.count("vtt_verbatim")
         if ("00:01.000 --> 00:02.000 " + raw) not in back.split("\n"):
             chk.property_failure({"source": src, "output": back}, "webvtt: cue settings read from a file are not written back verbatim")
+    # ---------------- WebVTT: a writer object reused for several documents keeps nothing from the previous one
+    shared = {}
+    for k in range(60 if chk.tier == "quick" else 1500):
+        lang_l = mk_layout_desc(rng, True) if k % 2 == 0 else None
+        cap_l = mk_layout_desc(rng, True) if rng.random() < 0.3 else None
+        desc = {"langs": [{"lang": "en-US", "layout": lang_l, "caps": [{"start": 1000000, "end": 2000000, "nodes": [["T", "hello"]], "layout": cap_l}]}]}
+        opts = rng.choice([{}, {"fit_to_screen": False}])
+        key = json.dumps(opts, sort_keys=True)
+        w = shared.setdefault(key, pycaption.WebVTTWriter(**opts))
+        got = [l for l in w.write(setbuild.build(desc)).split("\n") if "-->" in l]
+        want = [l for l in pycaption.WebVTTWriter(**opts).write(setbuild.build(desc)).split("\n") if "-->" in l]
+        chk.case(key=("vtt_reuse", k, json.dumps(desc, sort_keys=True)), nontrivial=True); chk.count("vtt_writer_reuse")
+        if got != want:
+            chk.property_failure({"set": desc, "options": opts, "reused_writer": got, "fresh_writer": want, "document_index_on_this_writer": k},
+                                 "webvtt: cue settings written by a reused writer object differ from a fresh writer's (layout carried over from an earlier document)")
     # ---------------- DFXP round trip: effective layout per visible character
     for _ in range(150 if chk.tier == "quick" else 5000):
         opts = rng.choice([{}, {"fit_to_screen": False}, {"relativize": False, "fit_to_screen": False}])
